@@ -9,6 +9,7 @@ import (
 
 	"github.com/goblimey/go-ntrip/rtcm/handler"
 	"github.com/goblimey/go-ntrip/rtcm/header"
+	"github.com/goblimey/go-ntrip/rtcm/pushback"
 	"github.com/goblimey/go-ntrip/rtcm/type1005"
 	"github.com/goblimey/go-ntrip/rtcm/type1006"
 	msm4 "github.com/goblimey/go-ntrip/rtcm/type_msm4/message"
@@ -61,6 +62,9 @@ type Case struct {
 	Type int `json:"type"`
 }
 
+// Every level a caller may hand to handler.New: the two the bundled programs use and others.
+var levels = []slog.Level{slog.LevelDebug, slog.LevelInfo, slog.LevelWarn, slog.LevelError, slog.Level(-8), slog.Level(2)}
+
 func check(c Case, o *stats.Obs) error {
 	t := c.Type
 	w4, w7, wc := table(t)
@@ -104,7 +108,7 @@ func check(c Case, o *stats.Obs) error {
 	if t < 0 {
 		m := handler.NewNonRTCM([]byte("junk"))
 		m.MessageType = t
-		for _, lv := range []slog.Level{slog.LevelDebug, slog.LevelInfo} {
+		for _, lv := range levels {
 			m.LogLevel = lv
 			if m.String() == "" {
 				return fmt.Errorf("String() of sentinel type %d is empty", t)
@@ -122,7 +126,7 @@ func check(c Case, o *stats.Obs) error {
 	p := make([]byte, 40)
 	copy(p, bw.Bytes())
 	frame := enc.Frame(p)
-	for _, lv := range []slog.Level{slog.LevelDebug, slog.LevelInfo} {
+	for _, lv := range levels {
 		h := drive.NewHandler(lv)
 		m, _ := h.GetMessage(append([]byte{}, frame...))
 		if m == nil {
@@ -172,6 +176,47 @@ func check(c Case, o *stats.Obs) error {
 		_, s7 := m3.Readable.(*msm7.Message)
 		if s4 != w4 || s7 != w7 {
 			return fmt.Errorf("type %d: after String() Readable is %T (error %q); want MSM4=%v MSM7=%v", t, m3.Readable, m3.ErrorMessage, w4, w7)
+		}
+	}
+	// History: the same handler first sees a stream that breaks off in the middle of a frame of another type
+	// with the same length (the connection dropped), then classifies this frame.  The classification must be
+	// this frame's own.
+	{
+		other := 1077
+		if t == 1077 {
+			other = 1005
+		}
+		ob := &enc.BitWriter{}
+		ob.Put(uint64(other), 12)
+		ob.Put(9, 12)
+		ob.Put(777, 30)
+		op := make([]byte, 40)
+		copy(op, ob.Bytes())
+		oframe := enc.Frame(op)
+		for _, cut := range []int{5, 6, 20, len(oframe) - 1} {
+			h := drive.NewHandler(slog.LevelInfo)
+			ch := make(chan byte, cut)
+			for _, b := range oframe[:cut] {
+				ch <- b
+			}
+			close(ch)
+			pb := pushback.New(ch)
+			for i := 0; i < 4; i++ {
+				if bm, _ := h.FetchNextMessageFrame(pb); bm == nil {
+					break
+				}
+			}
+			m, _ := h.GetMessage(append([]byte{}, frame...))
+			if m == nil || m.MessageType != t {
+				got := -99
+				if m != nil {
+					got = m.MessageType
+				}
+				return fmt.Errorf("after a stream that broke off %d bytes into a type %d frame, the same handler reports type %d for a valid frame of type %d", cut, other, got, t)
+			}
+			if (m.Timestamp != 0) != wm || (wm && m.Timestamp != 1000) {
+				return fmt.Errorf("after a stream that broke off %d bytes into a type %d frame, the same handler extracts timestamp %d from a valid frame of type %d (MSM = %v, its timestamp field is 1000)", cut, other, m.Timestamp, t, wm)
+			}
 		}
 	}
 	_, _, herr := header.GetMSMHeader(frame, slog.LevelInfo)
